@@ -105,9 +105,17 @@ class TapeRecorder:
         if power == 0:
             return self.__class__(self.algebra, expr='(1,)', keys=(0,))
 
-        res = self
+        elif power < 0:
+            res = x = self.inv()
+            power *= -1
+        else:
+            res = x = self
+
+        if power == 0.5:
+            return res.sqrt()
+
         for i in range(1, power):
-            res = res.gp(self)
+            res = res.gp(x)
         return res
 
     # Unary operators
